@@ -9,7 +9,7 @@ file, build the real code natively (gcc/g++, ASan+UBSan) and replay  ->  known-f
 Exit status of a check: 0 held / only known findings, 1 VIOLATION (replayed), 2 machinery fault or
 inconclusive (never printed as VIOLATION).
 """
-import os, sys, re, json, time, subprocess, shutil, hashlib, tempfile, signal, resource
+import shutil, os, sys, re, json, time, subprocess, shutil, hashlib, tempfile, signal, resource
 from concurrent.futures import ThreadPoolExecutor
 
 VERIF = os.path.dirname(os.path.dirname(os.path.abspath(__file__)))
@@ -627,6 +627,16 @@ def check_harness(prop, h, tier, scratch, log):
                 ip = os.path.join(wd, 'sample%d.in' % k)
                 write_inputs(ip, {a: (json.dumps(b) if isinstance(b, str) else str(b)) for a, b in smp.items()})
                 a = run_native(exe_r, ip); b = run_native(exe_g, ip)
+                if a['crashed'] or a['timeout']:
+                    # the REAL build (g++/libstdc++ with _GLIBCXX_ASSERTIONS) crashes or hangs on a sample input: that is a concrete violation
+                    # demonstrated on the real code, not a translation problem
+                    rdir = os.path.join(VERIF, 'replay', prop); os.makedirs(rdir, exist_ok=True)
+                    rfile = os.path.join(rdir, '%s-sample%d.in' % (h.name, k))
+                    shutil.copyfile(ip, rfile)
+                    R.violations.append({'failed': ['real build %s on sample input %s' % ('hangs' if a['timeout'] else 'crashes', json.dumps(smp))], 'inputs': smp, 'replay': rfile,
+                                         'native': {'rc': a['rc'], 'failed_checks': a['failed_checks'], 'sanitizer': a['sanitizer'], 'crashed': a['crashed'], 'tail': a['out'][-800:]}})
+                    R.status = 'violation'
+                    return R
                 if a['obs'] == b['obs'] and a['rc'] == b['rc']:
                     agree += 1
                 else:
